@@ -192,6 +192,7 @@ def write_evidence(prop, tier, seed, results, violations, known_hits, inconclusi
             engine="symx: AST-rewritten source of %s executed on symbolic values; z3 %s decides every branch and assertion" % (
                 loader.REPO, __import__('z3').get_version_string()),
             known_findings={k: len(v) for k, v in known_hits.items()},
+            extra=_sum_extra(results),
             inconclusive=len(inconclusive) + len(mismatches) + len(nonrepro),
         ),
         assumptions=prop.ASSUMPTIONS,
@@ -201,6 +202,14 @@ def write_evidence(prop, tier, seed, results, violations, known_hits, inconclusi
     os.makedirs(os.path.join(core.VERIF, 'evidence'), exist_ok=True)
     with open(os.path.join(core.VERIF, 'evidence', prop.ID + '.json'), 'w') as fh:
         json.dump(ev, fh, indent=1, default=str)
+
+
+def _sum_extra(results):
+    out = {}
+    for r in results:
+        for k, v in (r.get('extra') or {}).items():
+            out[k] = out.get(k, 0) + v
+    return out
 
 
 def do_selftest(prop, args):
